@@ -68,4 +68,36 @@ PROPS = {
                 "pastel gradient (CLI) is exercised by the C19/C02 CLI runs"
         ]
 },
+    "C12": {
+        "rule": "all 256 codes; to_ansi_8bit on every palette colour, all 256 grays, the colorcheck colours, a lattice (step 17 quick / 5 thorough) and random colours, each against brute force over the 240 entries; implementation vs model code exactly",
+        "trust": [
+                "the Generated table is written by pv-harness gen-ansi from the live code before lake build"
+        ],
+        "generated": [
+                [
+                        "gen-ansi",
+                        "Pastel/Generated/AnsiTable.lean"
+                ]
+        ]
+},
+    "C01": {
+        "rule": "rendered syntax trees of all ten notations with every separator / blank / case / unit / number-spelling choice (integers, decimals, leading dot, trailing dot, signed, exponent forms, nan/inf spellings, 1e400), Unicode whitespace wrapping, character-level edits from a notation-specific alphabet (incl. KELVIN SIGN, NBSP, emoji), arbitrary ASCII / Unicode / lossy-bytes strings, all 148 names in three casings, a hand-written corpus; non-trivial = accepted string; distribution reports accept/reject per generator",
+        "trust": [
+                "nom 7.1.3 combinators, str::trim, to_lowercase and str::parse::<f64> are modelled, validated only by the correspondence",
+                "the CLI message 'Could not parse color' is checked by the C19 runs"
+        ]
+},
+    "C02": {
+        "rule": "raw {:.N} and {} formatting of 20k (quick) / 400k floats incl. exact ties; 10 formatters x both spacings on structured colours, a lattice, all 256 hex alpha levels, all 1001 three-decimal alphas, HSL-float colours \u2014 exact string equality with the model; oracle print-then-parse for 7 notations x 2 spacings on every 5th level per channel (quick) / all 2^24 (thorough); non-trivial = alpha != 1 (formatter ops), every colour (oracle)",
+        "trust": [
+                "Rust's float Display/{:.N} is modelled (exact integer arithmetic on the bit pattern), validated by the correspondence"
+        ]
+},
+    "C13": {
+        "rule": "library: every style-flag combination x {24bit, 8bit, off} x colours x texts (ASCII, UTF-8, containing ESC); binary: the complete cross product of 6 flag settings x pipe/pty x 7 PASTEL_COLOR_MODE x 3 NO_COLOR x 4 COLORTERM = 1008 configurations against the model and the rule list; every colour-printing subcommand under 4 colour-off and 4 colour-on settings (ESC scan, reset discipline)",
+        "trust": [
+                "pty/pipe behaviour of the OS and atty are outside the model; observed"
+        ],
+        "cli": True
+},
 }
